@@ -28,15 +28,21 @@ def load_control(mods):
     return mods
 
 
-class StubServer:
-    client_class_name = "StubClient"
+_SERVER_CLASSES = {}
 
-    def __init__(self, pool):
-        self.pool = pool
-        self.serving = True
 
-    def is_serving(self):
-        return self.serving
+def in_memory_server(mods, pool):
+    """A real (never started) control server object whose only deviation is that it reports itself as serving:
+    sessions get every attribute a real server has, the transport is replaced at the ControlSession boundary."""
+    base = mods.server.UnixControlServer
+    cls = _SERVER_CLASSES.get(base)
+    if cls is None:
+        class InMemoryServer(base):
+            def is_serving(self):
+                return True
+
+        cls = _SERVER_CLASSES[base] = InMemoryServer
+    return cls(pool, socket_path="/nonexistent/vf-in-memory.sock")
 
 
 class RecWriter:
@@ -78,7 +84,7 @@ class Sess:
         self.width = width
         self.reader = asyncio.StreamReader()
         self.writer = RecWriter(world)
-        self.session = world.mods.session.ControlSession(StubServer(pool), self.reader, self.writer)
+        self.session = world.mods.session.ControlSession(world.server_for(pool), self.reader, self.writer)
         self.task = None
         self.handshake_exc = None
         self.seen = 0
@@ -106,6 +112,13 @@ class ControlWorld:
     def violate(self, clause, msg):
         if len(self.viol) < 8:
             self.viol.append({"clause": clause, "msg": msg, "at": len(self.log), "triggers": sorted(getattr(self, "triggers", ()))})
+
+    def server_for(self, pool):
+        """One server object per pool, shared by all sessions on that pool (as with a real server)."""
+        servers = self.__dict__.setdefault("_servers", {})
+        if id(pool) not in servers:
+            servers[id(pool)] = in_memory_server(self.mods, pool)
+        return servers[id(pool)]
 
     def note(self, *a):
         self.log.append(" ".join(str(x) for x in a))
